@@ -20,12 +20,12 @@ CONSTANTS Mode, MaxCalls
 VARIABLES req, stage, attrs, outcome, log, stale
 vars == <<req, stage, attrs, outcome, log, stale>>
 
-ScatKinds == {"sphere", "layered", "spheres_mie", "spheres_multisphere", "spheroid", "cylinder", "sphere_mielens"}
+ScatKinds == {"sphere", "layered", "spheres_mie", "spheres_multisphere", "spheroid", "cylinder", "sphere_mielens", "sphere_lens"}
 \* multichannel_permuted: two illumination channels whose wavelength, polarisation and scaling are
 \* given per channel as dictionaries, each listing the channels in its own order (none in the detector's)
 \* pixel_subset: the detector is a flat random subset of a grid's pixels;  raised_plane: a grid whose own z is not 0
 DetKinds == {"square", "rect_aniso", "shifted_origin", "one_by_n", "points", "multichannel", "multichannel_permuted",
-             "pixel_subset", "raised_plane"}
+             "pixel_subset", "raised_plane", "points_spherical"}     \* the last: points given by (r, theta, phi), r finite
 Pols == {"x", "z24_3", "z24_8", "unnormalised", "unnormalised3"}   \* the last given with three components
 Alphas == {"zero", "one", "fraction", "negative"}
 Where == {"kw", "det", "both", "missing"}
@@ -33,6 +33,7 @@ OptKeys == <<"illum_wavelen", "medium_index", "illum_polarization">>
 
 Compatible(r) ==
    /\ (r.scat \in {"spheroid", "cylinder"} => r.pol = "x")                 \* T-matrix: x polarisation only
+   /\ (r.det = "points_spherical" => r.scat \notin {"sphere_mielens", "sphere_lens"})   \* lens theories: one detector height
    /\ (r.scat = "sphere_mielens" => r.det # "points")                       \* lens theories: fixed detector z
    /\ (r.det \in {"multichannel", "multichannel_permuted"} => r.scat \in {"sphere", "layered", "spheres_mie"})
    /\ (r.det = "multichannel_permuted" => r.pol = "x")      \* the per-channel polarisations are fixed by the harness
